@@ -176,7 +176,7 @@ func GenGenuine(r *rand.Rand, w *World, o GenOpts) *Genuine {
 			used += 1 + nv
 			a.Attrs = append(a.Attrs, at)
 		}
-		if n == 1 && r.IntN(25) == 0 {
+		if n == 1 && r.IntN(9) == 0 {
 			// one attribute with hundreds of values: 501-990 elements in total, still under goxmldsig's per-traversal budget
 			big := sim.AttrRec{Name: sim.S("groups-big")}
 			for k := 450 + r.IntN(480) - used; k > 0; k-- {
